@@ -1207,6 +1207,11 @@ fn judge_call(op: &COp, m: &Sexp, r: &RealResp) -> Option<(String, String)> {
             Some((format!("call:{}", op.kind()), format!("model {} real {}", show_model(m), show_real(r))))
         }
     };
+    if let RealResp::Trap { why } = r {
+        if let Some(kind) = super::alloc_kind(why) {
+            return Some((format!("ALLOC:{kind}"), format!("allocator discipline violated (checking allocator of the worker): {why}")));
+        }
+    }
     if r.is_trap() {
         return if m.head() == Some("trap") { None } else { Some((format!("trap:{}", op.kind()), format!("the loader died ({}) where the model answers {}", show_real(r), show_model(m)))) };
     }
@@ -1451,6 +1456,18 @@ pub fn evaluate(drv: &mut Driver, exe: &PathBuf, cases: &[Case]) -> Vec<Outcome>
                 break;
             }
         }
+        if o.finding.is_none() {
+            match real[i].last() {
+                Some(RealResp::Leak(desc)) => {
+                    o.finding = Some(Finding { sig: "ALLOC:leak".into(), what: format!("after [{}] ({}) and the end of its loader instance, blocks it allocated are still live: {desc}", c.hist_text(), c.origin), at: c.ops.len().saturating_sub(1) });
+                }
+                Some(RealResp::Trap { why }) if real[i].len() > c.ops.len() + c.config_text.is_some() as usize => {
+                    let sig = super::alloc_kind(why).map(|k| format!("ALLOC:{k}")).unwrap_or_else(|| "trap:thread-exit".into());
+                    o.finding = Some(Finding { sig, what: format!("after [{}] ({}) (the instance's thread exits): {why}", c.hist_text(), c.origin), at: c.ops.len().saturating_sub(1) });
+                }
+                _ => {}
+            }
+        }
         out.push(o);
     }
     out
@@ -1497,14 +1514,18 @@ fn record(rep: &mut Report, drv: &mut Driver, exe: &PathBuf, cases: &[Case], out
             }
         }
         if let Some(f) = &o.finding {
-            let sig = format!("emit-concrete:{}", f.sig);
-            let seen = rep.failures.iter().any(|x| x.stream == "K" && x.signature == sig);
+            // allocator discipline is the property on the real code (O), everything else model vs code (K)
+            let (stream, sig) = match f.sig.strip_prefix("ALLOC:") {
+                Some(kind) => ("O", format!("alloc:{kind}")),
+                None => ("K", format!("emit-concrete:{}", f.sig)),
+            };
+            let seen = rep.failures.iter().any(|x| x.stream == stream && x.signature == sig);
             if seen || !do_shrink {
-                rep.fail("K", &sig, &f.what, c.to_json());
+                rep.fail(stream, &sig, &f.what, c.to_json());
             } else {
                 let (small, what) = shrink(drv, exe, c, f);
                 let what = if small.ops.len() < c.ops.len() { format!("{what} (shrunk from [{}])", c.hist_text()) } else { what };
-                rep.fail("K", &sig, &what, small.to_json());
+                rep.fail(stream, &sig, &what, small.to_json());
             }
         }
     }
